@@ -411,6 +411,10 @@ def xsumproduct(*args):
     raise_errors(args)
     inp = np.asarray(args).reshape((len(args), -1))
     inp = inp[:, ~(inp == np.array(sh.EMPTY, dtype=object)).any(axis=0)]
+    # Non-numeric entries count as zero: also text that looks like a number.
+    inp = np.array([
+        [np.nan if isinstance(v, str) else v for v in r] for r in inp
+    ], object)
     return np.sum(np.prod(np.nan_to_num(to_number(inp).astype(float)), axis=0))
 
 
